@@ -112,8 +112,10 @@ def correspondence(ctx):
         # mixtures of presets and user terms
         for _ in range(60 if thorough else (16 if variant == "real" else 5)):
             m = pipeline.gen_model(r, max_modes=r.choice([3, 4, 5 if thorough else 4]), cplx=(variant == "complex"))
-            scripts.append(pipeline.core_script(m, order=r.below(2), symm=r.choice(["ignore", "default"]))[:-1])
-            kinds.append("mixture")
+            # every third mixture: a copy of the finished lattice receives like terms and is put aside (the original must not notice)
+            forked = r.chance(1, 3)
+            scripts.append(pipeline.core_script(m, order=r.below(2), symm=r.choice(["ignore", "default"]), forked=forked)[:-1])
+            kinds.append("mixture_forked" if forked else "mixture")
         res = pipeline.run_batch(scripts, variant)
         pipeline.collect(ctx, res, ["C04"])
         for k, s in zip(kinds, scripts):
